@@ -158,6 +158,9 @@ func (p *simProvider) GetKVStore(name string, class storage.Class) (stoabs.KVSto
 	if n.W.KVObserve != nil {
 		kv.Observe = func(name string, shelves map[string]int) { n.W.KVObserve(n, name, shelves) }
 	}
+	if n.W.KVObserveOps != nil {
+		kv.ObserveOps = func(name string, ops []seams.KVOp) { n.W.KVObserveOps(n, name, ops) }
+	}
 	p.s.kvs[key] = kv
 	return kv, nil
 }
@@ -209,6 +212,8 @@ type World struct {
 	Gens  map[string]int
 	// KVObserve sees every committed KV write transaction.
 	KVObserve func(n *Node, store string, shelves map[string]int)
+	// KVObserveOps sees the operations of every committed KV write transaction.
+	KVObserveOps func(n *Node, store string, ops []seams.KVOp)
 	// Crashed collects nodes whose incarnation died at a crash point and await restart.
 	cmu     sync.Mutex
 	crashed []string
@@ -253,8 +258,14 @@ func (w *World) StartNode(o NodeOpts) (*Node, error) {
 	var lastErr error
 	for attempt := 0; attempt < 8; attempt++ {
 		n, err := w.startNodeOnce(o)
-		if err == nil {
+		if err == nil && !n.Inc.Dead() {
 			return n, nil
+		}
+		if err == nil {
+			// a crash point fired during start-up without failing it (errors of the replay of
+			// stored events are not start-up errors): the process is gone all the same
+			err = fmt.Errorf("incarnation died during start")
+			w.P2P.DisconnectAll(o.Name)
 		}
 		lastErr = err
 		if n == nil || !n.Inc.Dead() {
